@@ -130,14 +130,20 @@ def n_bits(circ):
 
 
 # ------------------------------------------------------------------ source generation
-def circ_lines(circ, var):
-    """Python lines that build the pytket circuit `var` (registers in *creation* order)."""
+def circ_lines(circ, var, early=0, early_name=None):
+    """Python lines that build the pytket circuit `var` (registers in *creation* order).  early=r > 0:
+    the circuit is first loaded (flat) and compiled as `early_name` without its last r operations, which
+    are then appended to the same Circuit object (a notebook-style history: build, try, extend, load again)."""
     ls = [f"{var} = Circuit()"]
     for i, (name, size) in enumerate(circ["qregs"]):
         ls.append(f'{var}_q{i} = {var}.add_q_register("{name}", {size})')
     for i, (name, size) in enumerate(circ["cregs"]):
         ls.append(f'{var}_c{i} = {var}.add_c_register("{name}", {size})')
-    for op in circ["ops"]:
+    cut = len(circ["ops"]) - early if early else None
+    for oi, op in enumerate(circ["ops"]):
+        if cut is not None and oi == cut:
+            ls.append(f'{early_name} = guppy.load_pytket("{early_name}", {var}, use_arrays=False)')
+            ls.append(f"{early_name}.compile_function()")
         qs = ", ".join(f"{var}_q{r}[{i}]" for r, i in op["q"])
         if op["g"] == "Measure":
             r, i = op["b"]
@@ -180,7 +186,8 @@ def case_lines(case, k):
     circ = case["circ"]
     n, nb = n_qubits(circ), n_bits(circ)
     var = f"C{k}"
-    top = circ_lines(circ, var)
+    early = min(int(case.get("reload", 0)), len(circ["ops"]))
+    top = circ_lines(circ, var, early, f"e{k}")
     mode = case["mode"]
     syms = sorted(set(symbols_first_occurrence(circ)))
     if mode == "stub":
@@ -721,6 +728,8 @@ def features(case):
         f.add("qregs2")
     if any(op["g"] == "Measure" for op in circ["ops"]):
         f.add("measure")
+    if case.get("reload"):
+        f.add("reload")
     return f
 
 
@@ -880,8 +889,9 @@ def strategies():
         perm = list(draw(st.permutations(list(range(n)))))
         ns = len(set(symbols_first_occurrence(circ)))
         vals = draw(st.lists(angle_val, min_size=ns, max_size=ns, unique=True))
+        reload_ = draw(st.sampled_from([0, 0, 0, 0, 1, 2])) if len(circ["ops"]) >= 2 else 0
         return {"kind": kind, "circ": circ, "mode": mode, "prep": prep, "perm": perm, "vals": vals,
-                "seed": draw(st.integers(1, 10**6))}
+                "seed": draw(st.integers(1, 10**6)), "reload": reload_}
 
     @st.composite
     def shape_case(draw):
